@@ -301,13 +301,14 @@ func (c *Real32) Erfc(a ConstScalar) Scalar {
 }
 func (c *Real32) LogErfc(a ConstScalar) Scalar {
   x := a.GetFloat64()
-  t := math.Erfc(x)
   v0 := special.LogErfc(x)
+  // r = erfc'(x)/erfc(x) evaluated on log scale (no underflow of erfc)
   f1 := func() float64 {
-    return -2.0/(math.Exp(a.GetFloat64()*a.GetFloat64())*special.M_SQRTPI*t)
+    return -2.0/special.M_SQRTPI*math.Exp(-x*x - v0)
   }
   f2 := func() float64 {
-    return 4.0*(math.Exp(x*x)*special.M_SQRTPI*t*x - 1)/(math.Exp(2*x*x)*math.Pi*t*t)
+    r := f1()
+    return -2.0*x*r - r*r
   }
   return c.monadicLazy(a, v0, f1, f2)
 }
